@@ -50,6 +50,13 @@ def gen_cases(ctx):
         # product initial states: bonds grow during the sweep, so stale environments cannot cancel
         cases.append({"kind": "notrunc", "par": par, "seed": rng.randrange(10 ** 9), "steps": 2, "bonds": [1],
                       "rich": True})
+    # histories with a reset between steps on trees whose bonds are not saturated in the first sweep (>= 5 nodes): a stale
+    # environment cache after reset_to_initial_state shows as an energy jump only there (round-4 seed C07-R4A)
+    hrng = ctx.subrng("reset-history")
+    for par in list(gen.HARD_SHAPES) + [[-1, 0, 1, 2, 3, 4], [-1, 0, 1, 1, 2, 2]]:
+        if len(par) >= 5:
+            cases.append({"kind": "notrunc", "par": par, "seed": hrng.randrange(10 ** 9), "steps": 3, "reset_after": 1,
+                          "fam": "reset-history"})
     for _ in range(ctx.n(40, 300)):
         kind = rng.choice([None, "spider", "chain", "star", "bush", "bush", "twig"])
         n = rng.choice([4, 5, 6]) if kind else rng.choice([2, 3, 4, 5])
